@@ -178,7 +178,7 @@ func (w *World) RandomCase(rng *rand.Rand) *Concrete {
 		m.Extra = "none"
 	}
 	cc.Case.Hist = "fresh"
-	cc.Case.Recv = Recv{Layout: pick(rng, layouts), Stored: pick(rng, storedCls), Shares: "none", EonKey: "main"}
+	cc.Case.Recv = Recv{Layout: pick(rng, layouts), Stored: pick(rng, storedCls), Shares: "none", EonKey: "main", Pos: pick(rng, []string{"first", "middle", "last"})}
 	if m.Mt == "shares" {
 		cc.Case.Recv.Shares = pick(rng, sharesCls)
 	}
